@@ -73,3 +73,120 @@ func Sleep(d Duration) {
 		s.Sleep(int64(d))
 	}
 }
+
+// ---------------------------------------------------------------------------
+// timers (discrete-event: they fire when the simulated clock reaches them; the
+// scheduler may let the clock run ahead of runnable tasks, see Policy.TimerEager)
+
+// Timer is a simulated time.Timer.
+type Timer struct {
+	C  <-chan Time
+	c  chan Time
+	f  func()
+	id uint64
+}
+
+func (t *Timer) start(d Duration) {
+	s := simrt.Enter()
+	if s == nil {
+		return // outside a simulation nothing fires
+	}
+	t.id = s.AfterFunc(int64(d), "timer", func() {
+		t.id = 0
+		if t.f != nil {
+			t.f()
+			return
+		}
+		simrt.Select(true, simrt.SelSend(t.c, Now()))
+	})
+}
+
+// NewTimer creates a Timer that sends the current time on its channel after d.
+func NewTimer(d Duration) *Timer {
+	c := make(chan Time, 1)
+	t := &Timer{C: c, c: c}
+	t.start(d)
+	return t
+}
+
+// AfterFunc calls f in its own task after d.
+func AfterFunc(d Duration, f func()) *Timer {
+	t := &Timer{f: f}
+	t.start(d)
+	return t
+}
+
+// After is NewTimer(d).C.
+func After(d Duration) <-chan Time { return NewTimer(d).C }
+
+// Stop prevents the Timer from firing; false if it already fired or was stopped.
+func (t *Timer) Stop() bool {
+	s := simrt.Enter()
+	if s == nil || t.id == 0 {
+		return false
+	}
+	s.Tick()
+	ok := s.CancelTimer(t.id)
+	t.id = 0
+	return ok
+}
+
+// Reset changes the timer to expire after d.
+func (t *Timer) Reset(d Duration) bool {
+	active := t.Stop()
+	t.start(d)
+	return active
+}
+
+// Ticker is a simulated time.Ticker.
+type Ticker struct {
+	C       <-chan Time
+	c       chan Time
+	d       Duration
+	id      uint64
+	stopped bool
+}
+
+func (t *Ticker) arm() {
+	s := simrt.Enter()
+	if s == nil {
+		return
+	}
+	t.id = s.AfterFunc(int64(t.d), "ticker", func() {
+		if t.stopped {
+			return
+		}
+		simrt.Select(true, simrt.SelSend(t.c, Now()))
+		t.arm()
+	})
+}
+
+// NewTicker returns a Ticker that ticks every d.
+func NewTicker(d Duration) *Ticker {
+	if d <= 0 {
+		panic("non-positive interval for NewTicker")
+	}
+	c := make(chan Time, 1)
+	t := &Ticker{C: c, c: c, d: d}
+	t.arm()
+	return t
+}
+
+// Tick is NewTicker(d).C.
+func Tick(d Duration) <-chan Time { return NewTicker(d).C }
+
+// Stop turns the ticker off.
+func (t *Ticker) Stop() {
+	t.stopped = true
+	if s := simrt.Enter(); s != nil && t.id != 0 {
+		s.CancelTimer(t.id)
+	}
+	t.id = 0
+}
+
+// Reset stops the ticker and restarts it with period d.
+func (t *Ticker) Reset(d Duration) {
+	t.Stop()
+	t.stopped, t.d = false, d
+	t.arm()
+}
